@@ -18,7 +18,7 @@ DEDUP_CALLS = {"fromkeys", "set", "frozenset", "unique", "OrderedSet"}
 
 
 
-def _meet_verdict(loop: ast.For, upd: ast.Assign, b: str):
+def _meet_verdict(loop: ast.For, upd: ast.Assign, b: str, pred: str = "pred"):
     """None when on every path through the sweep body the new dominator set of `b` is {b} ∪ ⋂ dom[p] over all p in pred[b]
     (and {b} when there is no predecessor); ("meet", msg) on positive evidence of another meet; ("meet-unrecognised", msg)
     when the construction is not understood."""
@@ -67,9 +67,9 @@ def _meet_verdict(loop: ast.For, upd: ast.Assign, b: str):
                 t2, p2 = t_, p_
                 while t2.startswith("not "):
                     t2, p2 = t2[4:].strip("()") if t2[4:].startswith("(") and t2.endswith(")") else t2[4:], not p2
-                if re.fullmatch(rf"pred\[{re.escape(b)}\]|len\(pred\[{re.escape(b)}\]\)( > 0| != 0| >= 1)?", t2):
+                if re.fullmatch(rf"{pred}\[{re.escape(b)}\]|len\({pred}\[{re.escape(b)}\]\)( > 0| != 0| >= 1)?", t2):
                     nonempty = p2
-                elif re.fullmatch(rf"len\(pred\[{re.escape(b)}\]\) == 0", t2):
+                elif re.fullmatch(rf"len\({pred}\[{re.escape(b)}\]\) == 0", t2):
                     nonempty = not p2
             # {b} | X
             X = None
@@ -102,7 +102,7 @@ def _meet_verdict(loop: ast.For, upd: ast.Assign, b: str):
             it_text = unparse(gen.iter)
             for _ in range(3):  # names inside the comprehension are resolved against the path's environment too
                 it_text = pth.res(ast.parse(it_text, mode="eval").body, k)
-            if unparse(g.elt) != f"self._dominance[{unparse(gen.target)}]" or it_text != f"pred[{b}]":
+            if unparse(g.elt) != f"self._dominance[{unparse(gen.target)}]" or it_text != f"{pred}[{b}]":
                 return ("meet-unrecognised", f"meet `{xt[:100]}` does not range over self._dominance[p] for p in pred[{b}]")
             if nonempty is None:
                 return ("meet-unrecognised", f"intersection over pred[{b}] on a path where it is not known to be non-empty")
@@ -413,7 +413,10 @@ def check_dominance(idx: Index, rep: Report) -> None:
 
     # ---- R2: predecessors restricted to reachable blocks
     r = rep.rule("C24.R2", "predecessor sets that feed the dominance meet contain only blocks reachable from the entry", floor=1)
-    adds = [c for c in calls_in(f.node) if call_attr(c) == "add" and isinstance(c.func, ast.Attribute) and isinstance(c.func.value, ast.Subscript) and unparse(c.func.value.value) == "pred"]
+    # the predecessor table: the local dict whose entries receive `.add(...)` and which the dominator update reads
+    cand = {unparse(c.func.value.value) for c in calls_in(f.node) if call_attr(c) == "add" and isinstance(c.func, ast.Attribute) and isinstance(c.func.value, ast.Subscript) and isinstance(c.func.value.value, ast.Name)}  # type: ignore[attr-defined]
+    predn = next(iter(cand)) if len(cand) == 1 else "pred"
+    adds = [c for c in calls_in(f.node) if call_attr(c) == "add" and isinstance(c.func, ast.Attribute) and isinstance(c.func.value, ast.Subscript) and unparse(c.func.value.value) == predn]
     if not adds:
         raise AnalysisError(f"{f.fq}: `pred[s].add(b)` not found")
     for c in adds:
@@ -518,7 +521,7 @@ def check_dominance(idx: Index, rep: Report) -> None:
     upd = [s for s in inner[0].body if isinstance(s, ast.Assign) and unparse(s.targets[0]) == f"self._dominance[{b}]"]
     if len(upd) != 1:
         raise AnalysisError(f"{f.fq}: dominator update not recognised")
-    verdict = _meet_verdict(inner[0], upd[0], b)
+    verdict = _meet_verdict(inner[0], upd[0], b, predn)
     if verdict is None:
         r.ok(f.fq + ":meet", f"{f.loc} dom[{b}] = {{{b}}} | ∩ dom[p], p ∈ pred[{b}]")
     else:
